@@ -27,7 +27,7 @@ ASSUMPTIONS = [
 @st.composite
 def _spec(draw, tier):
     lay = draw(gens.csr_layout(max_regs=6))
-    stim = draw(st.one_of(conforming_stimulus(), conforming_stimulus(), arbitrary_stimulus()))
+    stim = draw(gens.weighted((2, conforming_stimulus()), (1, arbitrary_stimulus())))
     return {"lay": lay, "stim": stim}
 
 
